@@ -301,10 +301,18 @@ def gen_C04(rng, tier):
             st = {'i': 0}
             # some parts still running when the loss is reported (the lost-worker timeout is 1-10 s)
             slow = rng.choice([[0, 0.05, 0.3], [0, 0.3, 1.6, 3.5]])
+            early = None
+            if n > 1 and rng.random() < 0.3:
+                # the lost part is not the next one to be delivered: an earlier part is still running when the
+                # loss is reported (10 s after the death for parts of a map)
+                dpos = rng.randrange(1, n)
+                early = rng.randrange(dpos)
 
             def mk():
                 i = st['i']
                 st['i'] += 1
+                if i == early:
+                    return prog_ok(rng, maxticks=2, sleep=rng.choice([11.0, 13.5]))
                 return prog_die(rng) if i == dpos else prog_ok(rng, maxticks=2, sleep=rng.choice(slow))
             add_map(rng, c, ops, kind=kind, n=n, mkitem=mk, chunks=rng.choice([1, 1, 2, None]))
         else:
@@ -560,7 +568,20 @@ def gen_C09(rng, tier):
                 # still "consumed" for the worker's exit
                 ops.append(['discard', ops[-1][1]])
         elif r < 0.7:
-            add_map(rng, c, ops, n=rng.choice([2, 5, 9, 14]))
+            if pc['maxtasksperchild'] and pc['processes'] > 1 and rng.random() < 0.5:
+                # a map that is still running long after workers that finished parts of it left on schedule
+                # (a loss of a map part is reported 10 s after the exit): one part outlasts that period
+                n = rng.choice([3, 5, 9])
+                st = {'i': 0, 'slow': rng.randrange(n)}
+
+                def mkitem():
+                    i = st['i']
+                    st['i'] += 1
+                    return prog_ok(rng, maxticks=2, sleep=rng.choice([11.0, 13.5]) if i == st['slow']
+                                   else rng.choice([0, 0.05, 0.3]))
+                add_map(rng, c, ops, n=n, mkitem=mkitem, chunks=rng.choice([1, 1, 2, None]))
+            else:
+                add_map(rng, c, ops, n=rng.choice([2, 5, 9, 14]))
         elif r < 0.8:
             ops.append(['grow', rng.randint(1, 2)])
         elif r < 0.9:
